@@ -514,3 +514,259 @@ func ruleConditionFilterInstalled(e *Engine, r *Reporter) {
 		blind("condition-filter-skip: no BuildConditionTupleKeyFilter call found in internal/check")
 	}
 }
+
+// ruleStrategyPredicateRejectsOverweight: the typesystem predicates that license a fast strategy are universal over
+// the relation's edges: once an edge heavier than the strategy allows has been seen (`weight > k`), the predicate
+// cannot answer true any more.  (Turning that exit into a `continue` offers the strategy when merely *some* edge
+// qualifies.)
+func ruleStrategyPredicateRejectsOverweight(e *Engine, r *Reporter) {
+	r.Rule("strategy-predicate-rejects-overweight", "in every typesystem predicate that licenses a fast strategy (…Use…Resolver…), the branch taken when an edge's weight exceeds the strategy's bound cannot reach a return other than `false`", 2)
+	n := 0
+	for _, fn := range e.Fns {
+		if short(pkgOf(fn)) != "pkg/typesystem" || fn.Parent() != nil || fn.Signature.Recv() == nil {
+			continue
+		}
+		nm := pinnedSpellingName(fn)
+		if !strings.Contains(nm, "Use") || !strings.Contains(nm, "Resolver") {
+			continue
+		}
+		res := fn.Signature.Results()
+		if res.Len() != 1 || !types.Identical(res.At(0).Type(), types.Typ[types.Bool]) {
+			continue
+		}
+		ord := 0
+		for _, b := range fn.Blocks {
+			for si := range b.Succs {
+				for _, f := range edgeFacts(b, si) {
+					if f.Kind != ">" || !f.Positive || f.Y == nil {
+						continue
+					}
+					if _, ok := constInt(f.Y); !ok {
+						continue
+					}
+					fromWeight := derivesFrom(f.X, func(v ssa.Value) bool {
+						c, ok := v.(*ssa.Call)
+						if !ok {
+							return false
+						}
+						o := calleeObj(c)
+						return o != nil && o.Name() == "GetWeight"
+					})
+					if !fromWeight {
+						continue
+					}
+					n++
+					reach := blocksReachableFrom(b.Succs[si])
+					bad := ""
+					for _, rs := range returnSites(fn) {
+						if !reach[rs.At.Block()] || len(rs.Results) != 1 {
+							continue
+						}
+						if bv, isC := constBool(rs.Results[0]); isC && !bv {
+							continue
+						}
+						bad = e.instrPos(rs.At)
+					}
+					key := fmt.Sprintf("%s | overweight edge #%d", fname(fn), ord)
+					ord++
+					r.Check(bad == "", key, e.instrPos(b.Instrs[len(b.Instrs)-1]), "only `return false` is reachable", "after an edge heavier than the strategy's bound the predicate can still answer true (return at "+bad+"): the fast strategy is offered for a relation where only some of the edges qualify, and it does not see the paths through the others")
+				}
+			}
+		}
+	}
+	if n == 0 {
+		blind("strategy-predicate-rejects-overweight: no weight-bound test found in the typesystem strategy predicates")
+	}
+}
+
+func pinnedSpellingName(fn *ssa.Function) string {
+	s := fname(fn)
+	if i := strings.LastIndex(s, "."); i >= 0 {
+		return s[i+1:]
+	}
+	return s
+}
+
+// ruleWalkHandlerResults: typesystem.WalkUsersetRewrite stops at the first handler result that is not nil.  A handler
+// that returns a boolean boxed in the interface result therefore stops the walk even when the boolean is false
+// (a boxed false is not nil).  Every handler returns either nil or a value that is only produced on a hit.
+func ruleWalkHandlerResults(e *Engine, r *Reporter) {
+	r.Rule("walk-handler-returns-nil-or-hit", "every handler passed to WalkUsersetRewrite returns the nil interface to continue the walk; no return boxes a boolean that can be false (a boxed false is non-nil and ends the walk at the first node visited)", 3)
+	n := 0
+	for _, fn := range e.Fns {
+		if isTestSupport(pkgOf(fn)) {
+			continue
+		}
+		eachInstr(fn, false, func(in ssa.Instruction) {
+			c, ok := in.(ssa.CallInstruction)
+			if !ok {
+				return
+			}
+			o := calleeObj(c)
+			if o == nil || o.Name() != "WalkUsersetRewrite" {
+				return
+			}
+			for _, a := range c.Common().Args {
+				if _, isSig := a.Type().Underlying().(*types.Signature); !isSig {
+					continue
+				}
+				var h *ssa.Function
+				switch x := unwrap(a).(type) {
+				case *ssa.MakeClosure:
+					h, _ = x.Fn.(*ssa.Function)
+				case *ssa.Function:
+					h = x
+				}
+				if h == nil || len(h.Blocks) == 0 {
+					continue
+				}
+				n++
+				key := fmt.Sprintf("%s | walk handler #%d", fname(topLevel(fn)), ordinalIn(topLevel(fn), c))
+				if why, ok := walkHandlerExempt[fname(topLevel(fn))]; ok {
+					r.OK(key, e.instrPos(in), "exempt: "+why)
+					continue
+				}
+				bad := ""
+				for _, rs := range returnSites(h) {
+					if len(rs.Results) == 0 {
+						continue
+					}
+					mi, ok := rs.Results[0].(*ssa.MakeInterface)
+					if !ok {
+						continue
+					}
+					if b, isBool := mi.X.Type().Underlying().(*types.Basic); isBool && b.Info()&types.IsBoolean != 0 {
+						if bv, isC := constBool(mi.X); isC && bv {
+							continue
+						}
+						bad = e.instrPos(rs.At)
+					}
+				}
+				r.Check(bad == "", key, e.instrPos(in), "returns nil or a hit", "the handler returns a boxed boolean that can be false ("+bad+"): the walk stops at the first node it visits, later branches of the rewrite are never examined")
+			}
+		})
+	}
+	if n == 0 {
+		blind("walk-handler-returns-nil-or-hit: no WalkUsersetRewrite handler found")
+	}
+	// the exemption's premise: the two wrappers of relationInvolves are always asked together
+	callersOf := func(name string) map[*ssa.Function]bool {
+		out := map[*ssa.Function]bool{}
+		if o := e.funcObjOpt("pkg/typesystem", "TypeSystem."+name); o != nil {
+			if f := e.FnOf(o); f != nil {
+				for _, cs := range e.allCallSites(f) {
+					if !isTestSupport(pkgOf(cs.Parent())) && topLevel(cs.Parent()) != f {
+						out[topLevel(cs.Parent())] = true
+					}
+				}
+			}
+		}
+		return out
+	}
+	ci, cx := callersOf("RelationInvolvesIntersection"), callersOf("RelationInvolvesExclusion")
+	same := len(ci) == len(cx)
+	for f := range ci {
+		if !cx[f] {
+			same = false
+		}
+	}
+	r.Check(same, "RelationInvolvesIntersection and RelationInvolvesExclusion are asked together", "", fmt.Sprintf("%d caller(s), each asks both", len(ci)), "a caller consults only one of RelationInvolvesIntersection / RelationInvolvesExclusion: relationInvolves stops at the first set operator of either kind, so a single answer can be a false negative (e.g. exclusion nested under an intersection)")
+}
+
+
+// walkHandlerExempt: one named function, one reason.
+var walkHandlerExempt = map[string]string{
+	"(*pkg/typesystem.TypeSystem).relationInvolves": "returns `target == <operator>` at the first set operator it meets, which ends the walk with false for the other operator; its two exported wrappers are consumed only as RelationInvolvesIntersection || RelationInvolvesExclusion (internal/graph), and for that disjunction stopping at the first set operator is exact — no property depends on either answer alone",
+}
+
+// ruleSingleEdgeFromLoop: a function of the model graph that returns *one* edge picked while looping over a node's
+// edges must notice when there is more than one candidate.  A loop-carried edge variable that is simply overwritten
+// (last one wins) and returned hides every earlier candidate from the caller; the caller (ResolveRecursive) then
+// resolves the relation through that edge only.  Accepted shapes: the candidates are collected and counted, or the
+// carried value is compared with nil before it is overwritten.
+func ruleSingleEdgeFromLoop(e *Engine, r *Reporter) {
+	r.Rule("single-edge-not-last-wins", "no function of internal/modelgraph returns an edge held in a loop-carried variable that later iterations overwrite without the previous value ever being tested (a second recursive edge would silently replace the first)", 1)
+	n := 0
+	for _, fn := range e.Fns {
+		if short(pkgOf(fn)) != "internal/modelgraph" || fn.Parent() != nil {
+			continue
+		}
+		res := fn.Signature.Results()
+		returnsEdge := false
+		for i := 0; i < res.Len(); i++ {
+			if typeBaseName(derefType(res.At(i).Type())) == "WeightedAuthorizationModelEdge" {
+				if _, isPtr := res.At(i).Type().Underlying().(*types.Pointer); isPtr {
+					returnsEdge = true
+				}
+			}
+		}
+		hasLoop := false
+		for _, b := range fn.Blocks {
+			if loopHeader(b) == b {
+				hasLoop = true
+			}
+		}
+		if !returnsEdge && !hasLoop {
+			continue
+		}
+		if !returnsEdge {
+			continue
+		}
+		n++
+		bad := ""
+		for _, b := range fn.Blocks {
+			if loopHeader(b) != b {
+				continue
+			}
+			for _, in := range b.Instrs {
+				ph, ok := in.(*ssa.Phi)
+				if !ok {
+					break
+				}
+				if typeBaseName(derefType(ph.Type())) != "WeightedAuthorizationModelEdge" {
+					continue
+				}
+				// overwritten inside the loop: an incoming value from a block the header dominates that is not the phi itself
+				overwritten := false
+				for i, ed := range ph.Edges {
+					if b.Dominates(b.Preds[i]) && ed != ssa.Value(ph) {
+						overwritten = true
+					}
+				}
+				if !overwritten {
+					continue
+				}
+				// returned?
+				returned := false
+				for _, rs := range returnSites(fn) {
+					for _, rv := range rs.Results {
+						if derivesFrom(rv, func(v ssa.Value) bool { return v == ssa.Value(ph) }) {
+							returned = true
+						}
+					}
+				}
+				if !returned {
+					continue
+				}
+				// ever tested against nil inside the function?
+				tested := false
+				for _, bb := range fn.Blocks {
+					for si := range bb.Succs {
+						for _, f := range edgeFacts(bb, si) {
+							if f.Kind == "nil" && loopHeader(bb) != nil && derivesFrom(f.X, func(v ssa.Value) bool { return v == ssa.Value(ph) }) && unwrap(f.X) == ssa.Value(ph) {
+								tested = true
+							}
+						}
+					}
+				}
+				if !tested {
+					bad = e.instrPos(ph)
+				}
+			}
+		}
+		r.Check(bad == "", fname(fn)+" | returned edge is not a last-wins loop variable", e.pos(fn.Pos()), "candidates are counted or the carried value is tested", "the edge this function returns is a loop variable that each further candidate overwrites ("+bad+"): with two recursive edges on one relation only the last is resolved and paths alternating between them are lost (the weighted-graph engine denies where the default engine allows)")
+	}
+	if n == 0 {
+		blind("single-edge-not-last-wins: no edge-returning function found in internal/modelgraph")
+	}
+}
